@@ -226,12 +226,17 @@ def sendOK (c : Nat) (jobs : List Job) (slots : List (Option Slot)) (evs : List 
   subMultiset (marksOf evs) (inflight c jobs slots) &&
   subMultiset (bouncesOf evs) (inflightBounce jobs slots) && writesOK evs
 
-/-! #### reference reader: which records a report stream asks to mark
+/-! #### step-based reference reader: which records a report stream asks to mark
 
-An independent, minimal restatement of the report protocol: bytes accumulate (at most REPORTMAX are
-kept); a NUL that is not the first byte ends a report; its first byte names a slot; if that slot is
-in use the slot is freed, and the record is to be marked iff the second byte is `K`, `D`, or `Z`
-for a message that has exceeded its queue lifetime. -/
+A reader stripped of all effects: bytes accumulate (at most REPORTMAX are kept); a NUL that is not
+the first byte ends a report; its first byte names a slot; if that slot is in use the slot is
+freed, and the record is to be marked iff the second byte is `K`, `D`, or `Z` for a message that
+has exceeded its queue lifetime.  NOTE: this reader deliberately shares the framing decisions of the
+model `SendReport.step` (REPORTMAX cut, `n > 1` trigger, slot-table update) — it is the bridge used
+in the simulation proof, not an independent specification.  The independent, declarative reference
+(`declReports`/`declMarks`/`sendStrictDecl`: the writer's grammar `delnum text NUL`, no buffer, no
+REPORTMAX, the slot table never mutated) is in `Nq/Spec/ReportRef.lean`, and
+`Lemmas.SendRefL.refMarks_eq_decl` proves that the two agree on every byte stream. -/
 
 structure RefSt where
   rev : Bytes := []
